@@ -206,7 +206,7 @@ theorem NodeOK.chunk_sum {kf : KF} (hkf : KFOK kf) (b : Base) (h : NodeOK kf b.n
 
 /-! ## well-formed ops -/
 
-/-- with the repair of F20 (`kf.canon`) an op refers to the first separator of the base only if that separator is at
+/-- with the repair of F22 (`kf.canon`) an op refers to the first separator of the base only if that separator is at
 least as long as the base's prefix -/
 def NoShort (kf : KF) (b : Base) (pos : Nat) : Prop :=
   kf.canon = true → pos = 0 → ∀ k, b.node.key 0 = some k → b.node.pl ≤ kf.sl k
